@@ -13,7 +13,8 @@ C13 - case files round-trip; one case in different formats is one system.
    text-edited variants of the raw files (branch-end shunts, metered end, fixed shunt, winding-2 turns ratio, phase shift,
    magnetizing admittance, windings in kV, out-of-service records, another system base, three-winding transformers) are read
    by the library and solved; the reported voltages must balance the network the independent reader takes from the file.
-Not decided: the dyr file (dynamic data) against an independent reading.
+   The dyr file: every record of a model whose CON layout is transcribed in vh/srcread.py (14 models) against the device the
+   library attaches to the machine the record names, value by value.
 """
 import json
 import os
@@ -94,6 +95,13 @@ def run(tier):
                 var = [[(k_, w)] for k_ in single for w in ((1,) if quick else (0, 1, 2, 5))]
                 var += [[("sbase", 0), ("xfmr_tap_angle_mag", 1)], [("branch_end_shunts", 0), ("metered_end", 0), ("fixed_shunt", 2)]]
         tasks.append(dict(kind="source", sid="src[%s]" % c, case=c, variants=var))
+    for raw_, dyr_ in [("kundur/kundur.raw", "kundur/kundur_full.dyr"), ("ieee14/ieee14.raw", "ieee14/ieee14.dyr"), ("npcc/npcc.raw", "npcc/npcc_full.dyr"),
+                       ("wecc/wecc.raw", "wecc/wecc_full.dyr"), ("nordic44/N44_BC.raw", "nordic44/N44_BC.dyr"), ("kundur/kundur.raw", "kundur/kundur_gencls.dyr"),
+                       ("wecc/wecc.raw", "wecc/wecc_gencls.dyr"), ("ieee14/ieee14_ieeevc.raw", "ieee14/ieee14_ieeevc.dyr")][:5 if quick else 8]:
+        if os.path.exists(os.path.join("/repo/andes/cases", dyr_)):
+            tasks.append(dict(kind="dyr", sid="src[%s]" % dyr_, case=raw_, dyr=dyr_))
+    ng = 8 if quick else 60
+    tasks.append(dict(kind="source", sid="src[generated MATPOWER cases]", generated_mpc=[(k, (100.0, 50.0, 100.0, 400.0)[k % 4]) for k in range(ng)]))
     # fill in the idx of the altered device
     res = run_tasks("vh.checks.c13:task", tasks, nproc=NCPU, timeout=1500)
     traces = []
@@ -139,7 +147,7 @@ def run(tier):
                 "non-trivial = every round trip" % ("fixed list" if quick else "all that load"))
     rep.assume("independent reading of the source (vh/srcread.py): MATPOWER bus / gen / branch matrices and PSS/E rev. 32 / 33 bus, load, fixed shunt, "
                "generator, branch, two- and three-winding transformer records (CW 1-3, CZ 1-2, CM 1, nominal winding voltages equal to the bus base); "
-               "switched shunts, dc lines, FACTS devices and the dyr file are not read independently")
+               "the dyr records of 14 models (CON order from the PSS/E model documentation); switched shunts, dc lines, FACTS devices and the other dyr models are not read independently")
     return rep.finish()
 
 
